@@ -50,16 +50,16 @@ Notation membership_root' := (membership_root bytes bytes bytes Hsha).
 Notation incremental_roots' := (incremental_roots bytes bytes bytes Hsha).
 Notation path_get' := (@path_get bytes).
 
-(* verdict: 0 accept, 1 reject, 2 panic *)
+(* verdict: 0 accept, 1 reject (a missing path entry is a rejection since fix 76e96b4; it was a panic, code 2) *)
 Definition verdict_memb (path : list (pos * bytes)) (index version : N) (e root : bytes) : N :=
   match membership_root' (path_get' path) index version e with
-  | None => 2
+  | None => 1
   | Some d => if bytes_eqb d root then 0 else 1
   end.
 Definition verdict_incr (path : list (pos * bytes)) (s e : N) (ds de : bytes) : N :=
   match incremental_roots' (path_get' path) s e with
   | (Some a, Some b) => if bytes_eqb a ds && bytes_eqb b de then 0 else 1
-  | _ => 2
+  | _ => 1
   end.
 
 Definition nthN {A} (l : list A) (i : N) (d : A) : A := nth (N.to_nat i) l d.
